@@ -23,7 +23,9 @@ import (
 // goroutine scheduling. Environment is honest; only benign behaviours
 // (cache misses on error, dropped cache writes) are injected.
 
-var c14NoSumLists = []string{"", "private.example", "private.example/secret,corp.internal", "*.internal,private.example/*/lib", "example.com/a"}
+// the last three lists contain malformed globs, which the documentation says are ignored
+var c14NoSumLists = []string{"", "private.example", "private.example/secret,corp.internal", "*.internal,private.example/*/lib", "example.com/a",
+	"[internal,private.example", "corp[,,private.example/secret", "private.example/[,example.com/UPPER"}
 
 func c14Explore(src *choice.Src) *core.Result {
 	res := core.NewResult()
@@ -95,7 +97,7 @@ func c14Explore(src *choice.Src) *core.Result {
 		if src.Bool(1, 3) {
 			spec.Height = src.Range(1, 8)
 		}
-		spec.NoSumDB = c14NoSumLists[src.Weighted(5, 2, 2, 2, 1)]
+		spec.NoSumDB = c14NoSumLists[src.Weighted(5, 2, 2, 2, 1, 1, 1, 1)]
 		ntasks := src.Range(2, 4)
 		if totalTasks+ntasks > 8 {
 			ntasks = 2
